@@ -41,6 +41,7 @@ impl C03 {
             sets.push(TitleSet { name: "lexicon-titles<=3w".into(), l, titles: Titles::Words { lex: lex_strings(l), maxw: 3 }, nctx: 3, block: 300 });
             sets.push(TitleSet { name: "lexicon-titles<=2w in a crowd of 25".into(), l, titles: Titles::Words { lex: lex_strings(l), maxw: 2 }, nctx: 4, block: 20 });
             sets.push(TitleSet { name: "long words 19..36 letters".into(), l, titles: Titles::List(long_word_titles(l)), nctx: 4, block: 4 });
+            sets.push(TitleSet { name: "function-word prefix pairs: titles<=4w".into(), l, titles: Titles::Words { lex: fw_prefix_lexicon(l), maxw: tier.pick(3, 4) }, nctx: 2, block: 200 });
             sets.push(TitleSet { name: format!("F1<={}", tier.pick(6, 8)), l, titles: Titles::Chars { fam: fam1(l), lo: 0, hi: tier.pick(6, 8) }, nctx: 3, block: 400 });
             sets.push(TitleSet { name: format!("F2<={}", tier.pick(5, 6)), l, titles: Titles::Chars { fam: fam2(l), lo: 0, hi: tier.pick(5, 6) }, nctx: 2, block: 400 });
             sets.push(TitleSet { name: format!("F4<={}", tier.pick(6, 7)), l, titles: Titles::Chars { fam: fam4(l), lo: 0, hi: tier.pick(6, 7) }, nctx: 2, block: 400 });
